@@ -874,6 +874,10 @@ def probe_purity(spec):
                 pf, gs = fresh_objects()
                 return pf.setup_optim_problem(_grid_prices(spec, gi, j, Ts[gi]), gs[gi])
             rec['fresh'] = run(fr)
+            # the portfolio hands its own grid to every asset: that is 'the grid set previously' of each asset from here on
+            for k in range(len(portf.assets)):
+                agrid[k] = gi
+                ahow[k] = 'setup'
         elif kind == 'S':
             gi, j = st['g'], st['p']
             rec['reused'] = run(lambda: portf.setup_split_optim_problem(prices(gi, j), G[gi], interval_size=st['size']))
